@@ -1016,4 +1016,116 @@ theorem cost_no_panic (fn : CostFn) (p1 p2 arg : Nat) (h1 : p1 < 1099511627776) 
 /-- an operator who configured a unit price of 2^65 H/byte makes `ReadOffsetCost(length)` panic on a renter-chosen length -/
 theorem cost_panics_huge_price : run { budget := 0 } (costSteps .readOffset (2 * U64) 0 (U64 - 1)) = .panic .executeReadOffset := by decide
 
+/-! ## 8. the other paid RHP3 RPCs: FundAccount, AccountBalance, LatestRevision, UpdatePriceTable -/
+
+theorem payStage_safe (f : Fixes) (hs : f.revisionSum = true) (s : HostState) (r : PaidReq) : Safe (payStage f s r) := by
+  unfold payStage
+  apply safe_append
+  · cases r.pay <;> simp [hs, Safe]
+  · split <;> simp [Safe]
+
+/-- **no_panic (FundAccount, AccountBalance, LatestRevision, UpdatePriceTable; repaired).**  For every
+price-table id, payment mode, amount (including 0 and amounts below the cost of the RPC) no handler panics. -/
+theorem paid_no_panic (f : Fixes) (hs : f.revisionSum = true) (hf : f.fundCost = true) (s : HostState) (r : PaidReq) (site : Site) :
+    (paid f s r).1 ≠ .panic site := by
+  have hp := payStage_safe f hs s r
+  unfold paid
+  cases r.rpc <;> simp only
+  · -- fund
+    have hsafe : Safe ([ Step.guard r.uidOk, .guard r.byContract ] ++ payStage f s r ++
+        (if f.fundCost then [ Step.guard (decide (r.cost ≤ r.amount)) ]
+         else [ .need (decide (r.cost ≤ r.amount)) .processFundAccountPayment ])) := by
+      apply safe_append
+      · apply safe_append _ _ _ hp; simp [Safe]
+      · simp [hf, Safe]
+    split
+    · rename_i s' heq; exact absurd heq (run_no_panic _ hsafe _ s')
+    · simp
+    · simp
+  · -- balance
+    have hsafe : Safe ([ Step.guard r.uidOk ] ++ payStage f s r) := safe_append _ _ (by simp [Safe]) hp
+    split
+    · rename_i s' heq; exact absurd heq (run_no_panic _ hsafe _ s')
+    · simp
+    · unfold spendCost; split <;> simp
+  · -- revision
+    have hsafe : Safe ([ Step.guard r.uidOk ] ++ payStage f s r) := safe_append _ _ (by simp [Safe]) hp
+    split; · simp
+    split; · simp
+    split
+    · rename_i s' heq; exact absurd heq (run_no_panic _ hsafe _ s')
+    · simp
+    · simp
+  · -- price table
+    split
+    · rename_i s' heq; exact absurd heq (run_no_panic _ hp _ s')
+    · simp
+    · unfold spendCost; split <;> simp
+
+/-- the current `processFundAccountPayment`: a correctly signed contract revision that transfers less than
+`FundAccountCost` (default 1 H: a zero transfer) reaches `totalAmount.Sub(pt.FundAccountCost)` -/
+theorem fundAccount_panics :
+    (paid { Fixes.all with fundCost := false } { rev := 6, roots := [1, 2, 3], balance := 100 }
+      { rpc := .fund, byContract := true, amount := 0, cost := 1 }).1 = .panic .processFundAccountPayment := by decide
+
+example : paid Fixes.all { rev := 6, roots := [1, 2, 3], balance := 100 } { rpc := .fund, byContract := true, amount := 0, cost := 1 }
+    = (.reject, { rev := 6, roots := [1, 2, 3], balance := 100 }) := by decide
+example : paid Fixes.none { rev := 6, roots := [1, 2, 3], balance := 100 } { rpc := .fund, byContract := true, amount := 50, cost := 1 }
+    = (.accept, { rev := 7, roots := [1, 2, 3], balance := 149 }) := by decide
+
+/-- **partial (FundAccount as written)**: the transfer covers the cost -/
+theorem fundAccount_partial (f : Fixes) (hs : f.revisionSum = true) (s : HostState) (r : PaidReq) (hr : r.rpc = .fund)
+    (hc : r.cost ≤ r.amount) (site : Site) : (paid f s r).1 ≠ .panic site := by
+  have hp := payStage_safe f hs s r
+  unfold paid
+  rw [hr]; simp only
+  have hsafe : Safe ([ Step.guard r.uidOk, .guard r.byContract ] ++ payStage f s r ++
+      (if f.fundCost then [ Step.guard (decide (r.cost ≤ r.amount)) ]
+       else [ .need (decide (r.cost ≤ r.amount)) .processFundAccountPayment ])) := by
+    apply safe_append
+    · apply safe_append _ _ _ hp; simp [Safe]
+    · split <;> simp [Safe, hc]
+  split
+  · rename_i s' heq; exact absurd heq (run_no_panic _ hsafe _ s')
+  · simp
+  · simp
+
+/-- **reject_noop (paid RPCs).**  A rejected request never touches the sector roots; paid from an
+ephemeral account it leaves everything as it was; paid by contract, either nothing changed or exactly
+the (valid, separately accepted) payment revision moved `amount` into the refund account. -/
+theorem paid_reject_noop (f : Fixes) (s s' : HostState) (r : PaidReq) (h : paid f s r = (.reject, s')) :
+    s'.roots = s.roots ∧ (r.byContract = false → s' = s) ∧
+    (s' = s ∨ (r.byContract = true ∧ s'.rev = s.rev + 1 ∧ s'.balance = s.balance + r.amount)) := by
+  unfold paid at h
+  have hspend : ∀ t, spendCost s r = (.reject, t) →
+      t.roots = s.roots ∧ (r.byContract = false → t = s) ∧
+      (t = s ∨ (r.byContract = true ∧ t.rev = s.rev + 1 ∧ t.balance = s.balance + r.amount)) := by
+    intro t ht
+    unfold spendCost afterContractPayment at ht
+    cases hb : r.byContract <;> simp [hb] at ht <;> split at ht <;> simp at ht <;> subst ht <;> simp
+  cases hr : r.rpc <;> simp only [hr] at h
+  · split at h <;> simp at h
+    subst h; simp
+  · split at h
+    · simp at h
+    · simp at h; subst h; simp
+    · exact hspend s' h
+  · split at h
+    · simp at h; subst h; simp
+    · split at h
+      · simp at h
+      · split at h <;> simp at h
+  · split at h
+    · simp at h
+    · simp at h; subst h; simp
+    · exact hspend s' h
+
+/-- an accepted paid RPC costs an ephemeral account exactly `cost ≤ amount` and changes neither revision nor roots -/
+theorem paid_accept_charge (f : Fixes) (s s' : HostState) (r : PaidReq) (hrpc : r.rpc = .balance ∨ r.rpc = .priceTable)
+    (hb : r.byContract = false) (h : paid f s r = (.accept, s')) :
+    s'.rev = s.rev ∧ s'.roots = s.roots ∧ s'.balance = s.balance - r.cost ∧ r.cost ≤ r.amount := by
+  unfold paid at h
+  rcases hrpc with hr | hr <;> simp only [hr] at h <;> split at h <;> (try simp at h) <;>
+    (unfold spendCost afterContractPayment at h; simp [hb] at h; split at h <;> simp at h; subst h; simp; assumption)
+
 end Hostd.Mdm
